@@ -66,4 +66,15 @@ PROPS = {
         streams=[dict(name="cfg", quick=300, thorough=20000, thorough_seeds=2)],
         trusted_base=["Go type assertion on the UseChecksum interface value modelled as a three-way case (nil / bool / other type)"],
     ),
+    "C14": dict(
+        lean=["Rscp.Props.C14", "Rscp.Tie.Vocab"],
+        streams=[dict(name="vocab", quick=300, thorough=20000, thorough_seeds=2)],
+        trusted_base=["names are handled as Nat codes (base-256 number of the bytes behind a leading 1; injectivity proved: nameCode_injective); that the generated code tables are the codes of the generated string tables is checked by the driver on every run (op `codes`), not by the kernel (the kernel needs 30 ms per string comparison)",
+                      "Rscp/Snapshot/Vocab.lean is the frozen vocabulary of the pinned commit"],
+    ),
+    "C18": dict(
+        lean=["Rscp.Props.C18", "Rscp.Tie.Builder"],
+        streams=[dict(name="builder", quick=400, thorough=20000, thorough_seeds=2)],
+        trusted_base=["go-slicereader's Read/Len (modelled as list head/length)", "Go type switch `case Tag, DataType` modelled by the three argument classes tag / data-type constant / other value"],
+    ),
 }
